@@ -331,6 +331,36 @@ fn typed_fields_case(addr: &u64, obs: &mut Obs) -> CaseResult {
     Ok(())
 }
 
+extern "x86-interrupt" fn h_plain(_f: x86_64::structures::idt::InterruptStackFrame) {}
+extern "x86-interrupt" fn h_err(_f: x86_64::structures::idt::InterruptStackFrame, _e: u64) {}
+extern "x86-interrupt" fn h_pf(_f: x86_64::structures::idt::InterruptStackFrame, _e: x86_64::structures::idt::PageFaultErrorCode) {}
+extern "x86-interrupt" fn h_div(_f: x86_64::structures::idt::InterruptStackFrame) -> ! {
+    loop {}
+}
+extern "x86-interrupt" fn h_div_err(_f: x86_64::structures::idt::InterruptStackFrame, _e: u64) -> ! {
+    loop {}
+}
+
+/// set_handler_fn for each of the five handler signatures stores the function's own address
+fn handler_fn_case(_: &u8, obs: &mut Obs) -> CaseResult {
+    let (cs, _) = crate::deliver::native_cs_ss();
+    let mut idt = Box::new(InterruptDescriptorTable::new());
+    idt.breakpoint.set_handler_fn(h_plain);
+    idt[77].set_handler_fn(h_plain);
+    idt.general_protection_fault.set_handler_fn(h_err);
+    idt.page_fault.set_handler_fn(h_pf);
+    idt.machine_check.set_handler_fn(h_div);
+    idt.double_fault.set_handler_fn(h_div_err);
+    let bytes = unsafe { &*(&*idt as *const _ as *const [[u8; 16]; 256]) };
+    for (v, addr) in [(3usize, h_plain as usize as u64), (77, h_plain as usize as u64), (13, h_err as usize as u64), (14, h_pf as usize as u64), (18, h_div as usize as u64), (8, h_div_err as usize as u64)] {
+        let g = decode(&bytes[v]);
+        ensure_eq!(g, Gate { offset: addr, selector: cs, ist: 0, zero1: 0, typ: 0xE, zero2: 0, dpl: 0, present: true, reserved: 0 }, "set_handler_fn on vector {}", v);
+        obs.nontrivial(&v);
+    }
+    ensure_eq!(idt.breakpoint.handler_addr().as_u64(), h_plain as usize as u64, "handler_addr() after set_handler_fn");
+    Ok(())
+}
+
 fn load_case(_: &u8, obs: &mut Obs) -> CaseResult {
     let idt = Box::new(InterruptDescriptorTable::new());
     let cp = cpu();
@@ -390,6 +420,12 @@ pub fn run(run: &mut Run) {
         n,
         canon_va(),
         typed_fields_case,
+    );
+    run.exhaustive(
+        "handler_fn",
+        "set_handler_fn with functions of the five handler signatures (plain, error code, page fault, diverging, diverging with error code): the gate at 16*vector encodes the function's own address with the documented defaults",
+        0u8..1,
+        handler_fn_case,
     );
     run.exhaustive(
         "load",
